@@ -224,6 +224,11 @@ theorem savePost_noPut (chk : Bool) (d : Disk) (obs : Option (List Nat)) :
       simp only [List.mem_flatMap, obsoleteOps, List.mem_cons, List.mem_map] at hop
       obtain ⟨n, _, (rfl | ⟨e, _, rfl⟩)⟩ := hop <;> rfl
 
+theorem clearOps_noPut (d : Disk) (p : List Nat) : ∀ op ∈ clearOps d p, isPut op = false := by
+  intro op hop
+  simp only [clearOps, List.mem_map] at hop
+  obtain ⟨f, _, rfl⟩ := hop; rfl
+
 /-- whatever the directory looks like, after `_save_pack_names` the content of
 `pack-names` is the three-way merge -/
 theorem run_saveOps_names (chk : Bool) (d0 d : Disk) (v : View) (obs : Option (List Nat)) :
